@@ -1363,7 +1363,11 @@ def _weighted_quantile(sorted_values, quantiles, weights):
             len(sorted_values), len(quantiles)))
   # Weighted quantiles of the observed (sorted) values.
   # Weights are spread equaly before and after the observed values.
-  weighted_quantiles = (np.cumsum(weights) - 0.5 * weights) / np.sum(weights)
+  # The total is taken from the cumulative sum itself: np.sum rounds differently
+  # and could push the last weighted quantile above 1.
+  cumulative_weights = np.cumsum(weights)
+  weighted_quantiles = (
+      cumulative_weights - 0.5 * weights) / cumulative_weights[-1]
 
   # Use linear interpolation to find index of the quantile values.
   index_values = np.arange(len(sorted_values))
